@@ -175,8 +175,59 @@ Section Render.
           ++ [t_arrow l] ++ nested_toks acts l
     end.
 
+  (* Gpos3_1 records; the first record of a first subtable starts a new line *)
+  Definition t_semi (l : N) := tk TSemi [59] l.
+  Fixpoint gpos3_toks (recs : list (N * (anchor * anchor))) (first j0 : bool) (l : N) : list token :=
+    match recs with
+    | [] => []
+    | (g, ((x1, y1), (x2, y2))) :: r =>
+        let l' := if first || negb j0 then l + 1 else l in
+        (if j0 then [] else [t_semi l]) ++ (if first || negb j0 then [tk TEOL [10] l] else [])
+          ++ [glyph_tok g l'; t_colon l'; tk TInt (digits_z x1) l'; t_comma l'; tk TInt (digits_z y1) l';
+              tk TIdent k_to l'; tk TInt (digits_z x2) l'; t_comma l'; tk TInt (digits_z y2) l']
+          ++ gpos3_toks r first false l'
+    end.
+  Definition t_at (l : N) := tk TAt [64] l.
+  Definition mark_toks (e : N * (N * anchor)) (l : N) : list token :=
+    [tk TIdent k_mark l; glyph_tok (fst e) l; t_colon l; tk TInt (digits (fst (snd e))) l; t_at l;
+     tk TInt (digits_z (fst (snd (snd e)))) l; t_comma l; tk TInt (digits_z (snd (snd (snd e)))) l; t_semi l].
+  Definition anchor_toks (a : anchor) (l : N) : list token :=
+    [t_at l; tk TInt (digits_z (fst a)) l; t_comma l; tk TInt (digits_z (snd a)) l].
+  Definition base_toks (e : N * list anchor) (l : N) : list token :=
+    tk TIdent k_base l :: glyph_tok (fst e) l :: t_colon l :: concat (map (fun a => anchor_toks a l) (snd e)) ++ [t_semi l].
+  Fixpoint lines_toks (items : list (N -> list token)) (first : bool) (l : N) : list token :=
+    match items with
+    | [] => []
+    | it :: r =>
+        let l' := if first then l + 1 else l in
+        (if first then [tk TEOL [10] l] else []) ++ it l' ++ lines_toks r true l'
+    end.
+  Fixpoint lines_dl (n : nat) (first : bool) : N :=
+    match n with
+    | O => 0
+    | S k => (if first then 1 else 0) + lines_dl k true
+    end.
+  Definition gpos4_items (mc : list N) (ma : list (N * anchor)) (bc : list N) (ba : list (list anchor)) : list (N -> list token) :=
+    map mark_toks (combine mc ma) ++ map base_toks (combine bc ba).
+  Definition pos_toks (p : pos_sub) (first : bool) (l : N) : list token :=
+    match p with
+    | Gpos3_1 cov records => gpos3_toks (combine cov records) first true l
+    | Gpos4_1 mc ma bc ba => lines_toks (gpos4_items mc ma bc ba) first l
+    end.
+  Fixpoint gpos3_dl (recs : list (N * (anchor * anchor))) (first j0 : bool) : N :=
+    match recs with
+    | [] => 0
+    | _ :: r => (if first || negb j0 then 1 else 0) + gpos3_dl r first false
+    end.
+  Definition pos_dl (p : pos_sub) (first : bool) : N :=
+    match p with
+    | Gpos3_1 cov records => gpos3_dl (combine cov records) first true
+    | Gpos4_1 mc ma bc ba => lines_dl (length (combine mc ma) + length (combine bc ba)) first
+    end.
+
   Definition sub_toks (s : subtable) (l : N) : list token :=
     match s with
+    | Pos _ => []
     | Chn h => chain_toks h l
     | Ctx c => ctx_toks c l
     | Gsub1_1 cov delta =>
@@ -196,19 +247,25 @@ Section Render.
   (* lines a subtable's own text spans beyond its first (class definitions) *)
   Definition sub_dl (s : subtable) : N := match s with Ctx c => ctx_dl c | Chn h => chain_dl h | _ => 0 end.
 
+  (* a subtable at position i of its lookup (first <-> i = 0) *)
+  Definition sub_toksp (s : subtable) (first : bool) (l : N) : list token :=
+    match s with Pos p => pos_toks p first l | _ => sub_toks s l end.
+  Definition sub_dlp (s : subtable) (first : bool) : N :=
+    match s with Pos p => pos_dl p first | _ => sub_dl s end.
+
   (* subtables; each " ||\n\t" starts a new line *)
   Fixpoint subs_toks (hdr : N -> list token) (subs : list subtable) (first : bool) (l : N) : list token :=
     match subs with
     | [] => []
     | s :: r =>
-        (if first then hdr l ++ sub_toks s l ++ subs_toks hdr r false (l + sub_dl s)
-         else [tk TOr [124; 124] l; tk TEOL [10] l] ++ sub_toks s (l + 1)
-                ++ subs_toks hdr r false (l + 1 + sub_dl s))
+        (if first then hdr l ++ sub_toksp s true l ++ subs_toks hdr r false (l + sub_dlp s true)
+         else [tk TOr [124; 124] l; tk TEOL [10] l] ++ sub_toksp s false (l + 1)
+                ++ subs_toks hdr r false (l + 1 + sub_dlp s false))
     end.
   Fixpoint subs_lines (subs : list subtable) : N :=
-    match subs with [] => 0 | s :: r => 1 + sub_dl s + subs_lines r end.
+    match subs with [] => 0 | s :: r => 1 + sub_dlp s false + subs_lines r end.
   Definition subs_dl (subs : list subtable) : N :=
-    match subs with [] => 0 | s :: r => sub_dl s + subs_lines r end.
+    match subs with [] => 0 | s :: r => sub_dlp s true + subs_lines r end.
 
   Definition hdr_toks (kw : list N) (lk : lookup) (l : N) : list token :=
     [tk TIdent (kw ++ digits (l_type lk)) l; tk TColon [58] l] ++ flag_toks (l_flags lk) l.
